@@ -2,10 +2,10 @@
    ExtrOcamlBasic only: bool, option, unit, list, prod, sumbool, sumor map to OCaml's; N/Z/positive/nat
    stay the extracted inductive types. *)
 From Coq Require Import Extraction ExtrOcamlBasic.
-From BS Require Import Base UtfSpec UtfModel JxJsonSpec JxXmlSpec JxModel JxPathModel JxDetect JxXmlOptions JxXmlDetect.
+From BS Require Import Base UtfSpec UtfModel JxJsonSpec JxXmlSpec JxModel JxPathModel JxDetect JxXmlOptions JxXmlDetect JxHistModel.
 Extraction Language OCaml.
 Extraction "../ml/gen/jx_model.ml" transcode json_parse_cps json_parse lex num_den den_eqb num_same_value int_lexeme
   catalogue has_type default save_json save_inner accept finalize_json rj_of_jv load_json load_json_text
   events_match rj_match dec_of_Z
   xml_parse_cps xml_parse xml_declared_encoding xml_print_cps save_xml saved_view strip_fmt_ws xnode_eqb px_parse load_xml load_xml_text
-  vcatalogue vload_json_text vload_xml_text rj_detect rj_read px_detect px_read.
+  vcatalogue vload_json_text vload_xml_text rj_detect rj_read px_detect px_read jhist_text xhist_text.
